@@ -40,11 +40,14 @@ def Store.flattenD : Nat → Store → SpecMap
   | _, s => s.flatten
 
 /-- `k` lies in the range: it has the prefix and is on the right side of the start point
-`prefix ‖ start` (inclusive), an empty start meaning no bound. -/
+`prefix ‖ start`, an empty start meaning no bound. Forwards the scan starts at the first key
+`≥ prefix‖start`; backwards at the last key that is `≤ prefix‖start` or has `prefix‖start` as a
+prefix (store.go:60-75 with seekRangeToPrefixes; all backends and cache layers since 5043d25). -/
 def inRange (rng : SeekRange) (k : Key) : Prop :=
   rng.pfx <+: k ∧
     (rng.start = [] ∨
-      (if rng.bw then lexLe k (rng.pfx ++ rng.start) = true else lexLe (rng.pfx ++ rng.start) k = true))
+      (if rng.bw then lexLe k (rng.pfx ++ rng.start) = true ∨ (rng.pfx ++ rng.start) <+: k
+       else lexLe (rng.pfx ++ rng.start) k = true))
 
 /-- `r` is the answer of the ordered map `f` to the scan `rng`. -/
 def IsSpecSeek (f : SpecMap) (rng : SeekRange) (r : List KV) : Prop :=
